@@ -100,7 +100,9 @@ type tmpl struct {
 // that must not be used cannot be excused by another list.
 var tmpls = []tmpl{
 	{"pub4", clsPub, func(s, i int) string { return fmt.Sprintf("/ip4/8.%d.%d.%d/tcp/4001", s&255, (i>>8)&255, i&255) }},
-	{"pub4q", clsPub, func(s, i int) string { return fmt.Sprintf("/ip4/45.%d.%d.%d/udp/4001/quic-v1", s&255, (i>>8)&255, i&255) }},
+	{"pub4q", clsPub, func(s, i int) string {
+		return fmt.Sprintf("/ip4/45.%d.%d.%d/udp/4001/quic-v1", s&255, (i>>8)&255, i&255)
+	}},
 	{"pub6", clsPub, func(s, i int) string { return fmt.Sprintf("/ip6/2600:%x::%x/tcp/4001", s+1, i+1) }},
 	{"pubdns", clsPub, func(s, i int) string { return fmt.Sprintf("/dns4/h%d.s%d.example.com/tcp/443/tls/ws", i, s) }},
 	{"priv4", clsPriv, func(s, i int) string { return fmt.Sprintf("/ip4/10.%d.%d.%d/tcp/4001", s&255, (i>>8)&255, i&255) }},
@@ -272,16 +274,16 @@ func (al *addrList) hasForeign() bool {
 type recKind int
 
 const (
-	recValid          recKind = iota // signed by p, names p
-	recOtherSelf                     // signed by another peer, names that peer (a perfectly valid record, of somebody else)
-	recPSignedOther                  // signed by p, names another peer
-	recOtherSignedP                  // signed by another peer, names p
-	recWrongDomain                   // signed by p for p under another envelope domain
-	recWrongType                     // signed by p, payload type is not a peer record
-	recCorrupted                     // valid record with one byte flipped
-	recGarbage                       // not an envelope at all
-	recOversized                     // valid, but does not fit an identify chunk
-	recValidBig                      // valid, > 500 addresses, fits a chunk
+	recValid        recKind = iota // signed by p, names p
+	recOtherSelf                   // signed by another peer, names that peer (a perfectly valid record, of somebody else)
+	recPSignedOther                // signed by p, names another peer
+	recOtherSignedP                // signed by another peer, names p
+	recWrongDomain                 // signed by p for p under another envelope domain
+	recWrongType                   // signed by p, payload type is not a peer record
+	recCorrupted                   // valid record with one byte flipped
+	recGarbage                     // not an envelope at all
+	recOversized                   // valid, but does not fit an identify chunk
+	recValidBig                    // valid, > 500 addresses, fits a chunk
 	nRecKinds
 )
 
@@ -443,7 +445,6 @@ type msgSpec struct {
 
 	// reference model
 	allowed   map[string]aclass   // store form -> class, over every list identify may use
-	nAllowed  map[aclass]int      // how many storable addresses per class the message offers at most in one usable list
 	protos    map[string]struct{} // every protocol name in the message
 	usableRec []string            // envelopes identify may use (valid, signed by and naming p)
 	nProtos   int
@@ -466,7 +467,7 @@ var chunkTargets = []int{1, 1, 1, 1, 1, 1, 1, 1, 2, 2, 2, 2, 2, 3, 3, 3, 4, 5, 6
 const chunkLimit = 7600 // bytes of payload put into one chunk before a new one is started
 
 func (w *world) drawMsg(rt *rapid.T, src int, label string) *msgSpec {
-	m := &msgSpec{allowed: map[string]aclass{}, nAllowed: map[aclass]int{}, protos: map[string]struct{}{}, desc: map[string]any{}}
+	m := &msgSpec{allowed: map[string]aclass{}, protos: map[string]struct{}{}, desc: map[string]any{}}
 	var repeated []item // protocols and listen addresses, in order
 	type scalar struct {
 		set func(*pb.Identify)
@@ -570,19 +571,9 @@ func (w *world) drawMsg(rt *rapid.T, src int, label string) *msgSpec {
 
 	// reference model of the addresses
 	for _, l := range usable {
-		per := map[aclass]int{}
 		for _, g := range l.addrs {
-			if g.store == "" {
-				continue
-			}
-			if _, dup := m.allowed[g.store]; !dup {
-				per[g.cls]++
-			}
-			m.allowed[g.store] = g.cls
-		}
-		for c, n := range per {
-			if n > m.nAllowed[c] {
-				m.nAllowed[c] = n
+			if g.store != "" {
+				m.allowed[g.store] = g.cls
 			}
 		}
 	}
